@@ -385,16 +385,12 @@ func (c *Client) Send(packet stanza.Packet) error {
 	// See https://xmpp.org/extensions/xep-0198.html#scenarios
 	// Without a session (before Connect, after a failed Connect or Resume) there is nothing to hold
 	// the stanza in: the write below reports that the client is not connected.
-	if session := c.Session; c.config.StreamManagementEnable && session != nil {
-		switch packet.(type) {
-		case stanza.SMRequest, *stanza.SMRequest, stanza.SMAnswer, *stanza.SMAnswer:
-			// Acknowledgement requests and answers are not stanzas: they are neither held nor
-			// counted, whether they are passed by value or by pointer.
-		default:
-			toStore := stanza.UnAckedStz{Stz: string(data)}
-			session.SMState.UnAckQueue.Push(&toStore)
-			held = session.SMState.UnAckQueue
-		}
+	// Only stanzas are held and numbered, as only stanzas are counted by the server: acknowledgement
+	// requests and answers, other nonzas and a nil packet are written and nothing else.
+	if session := c.Session; c.config.StreamManagementEnable && session != nil && isStanza(string(data)) {
+		toStore := stanza.UnAckedStz{Stz: string(data)}
+		session.SMState.UnAckQueue.Push(&toStore)
+		held = session.SMState.UnAckQueue
 	}
 
 	return c.writeHeld(data, held)
@@ -442,7 +438,7 @@ func (c *Client) SendRaw(packet string) error {
 	var held *stanza.UnAckQueue // the queue the stanza is put on, if any
 	// Store stanza as non-acked as part of stream management
 	// See https://xmpp.org/extensions/xep-0198.html#scenarios
-	if session := c.Session; c.config.StreamManagementEnable && session != nil && !isSMAck(packet) {
+	if session := c.Session; c.config.StreamManagementEnable && session != nil && isStanza(packet) {
 		toStore := stanza.UnAckedStz{Stz: packet}
 		session.SMState.UnAckQueue.Push(&toStore)
 		held = session.SMState.UnAckQueue
@@ -483,9 +479,12 @@ func (c *Client) sendWithWriter(writer io.Writer, packet []byte) error {
 	return err
 }
 
-// isSMAck tells whether a raw packet is a stream management acknowledgement request (<r/>) or
-// answer (<a/>). These are not stanzas: they are neither held for retransmission nor counted.
-func isSMAck(packet string) bool {
+// isStanza tells whether a serialized packet is a stanza: its first element is a message, a presence or an
+// iq of the client namespace (or without a namespace of its own). Only these are counted in the "h" of the
+// server's acknowledgements, so only these are held for retransmission and numbered: not the requests and
+// answers of stream management, other nonzas (client state indication, a stream end tag), a white space
+// keepalive or the empty string.
+func isStanza(packet string) bool {
 	d := xml.NewDecoder(strings.NewReader(packet))
 	for {
 		tok, err := d.Token()
@@ -493,8 +492,10 @@ func isSMAck(packet string) bool {
 			return false
 		}
 		if start, ok := tok.(xml.StartElement); ok {
-			return start.Name.Space == stanza.NSStreamManagement &&
-				(start.Name.Local == "r" || start.Name.Local == "a")
+			if start.Name.Space != "" && start.Name.Space != stanza.NSClient {
+				return false
+			}
+			return start.Name.Local == "message" || start.Name.Local == "presence" || start.Name.Local == "iq"
 		}
 	}
 }
